@@ -374,6 +374,18 @@ func allBalKeys(pre, post *View) []string {
 	return sortedKeys(m)
 }
 
+func accName(addrHex string) string {
+	switch addrHex {
+	case hexs(reqAcc):
+		return "escrow"
+	case hexs(depAcc):
+		return "deposit-account"
+	case hexs(feeColl):
+		return "fee-collector"
+	}
+	return nameOf(mustHex(addrHex))
+}
+
 func isModuleAcc(addrHex string) bool {
 	return addrHex == hexs(reqAcc) || addrHex == hexs(depAcc) || addrHex == hexs(feeColl)
 }
@@ -388,20 +400,17 @@ func (L *Ledger) CompareBalances(pre, post *View) []LedgerProblem {
 			want = new(big.Int)
 		}
 		if got.Cmp(want) != 0 {
-			who := nameOf(mustHex(k))
-			switch k {
-			case hexs(reqAcc):
-				who = "escrow"
-			case hexs(depAcc):
-				who = "deposit-account"
-			case hexs(feeColl):
-				who = "fee-collector"
-			}
+			who := accName(k)
 			out = append(out, LedgerProblem{Cat: "balance", Clause: "balance-moves-only-as-predicted", Disc: who,
 				Detail: fmt.Sprintf("%s balance moved by %s, predicted %s", who, got, want)})
 		}
 	}
+	expKeys := make([]string, 0, len(L.ExpBal))
 	for k := range L.ExpBal {
+		expKeys = append(expKeys, k)
+	}
+	sort.Strings(expKeys)
+	for _, k := range expKeys {
 		if _, ok := pre.Bal[k]; ok {
 			continue
 		}
@@ -409,8 +418,8 @@ func (L *Ledger) CompareBalances(pre, post *View) []LedgerProblem {
 			continue
 		}
 		if L.ExpBal[k].Sign() != 0 {
-			out = append(out, LedgerProblem{Cat: "balance", Clause: "balance-moves-only-as-predicted", Disc: nameOf(mustHex(k)),
-				Detail: fmt.Sprintf("%s predicted to move by %s but has no balance record", nameOf(mustHex(k)), L.ExpBal[k])})
+			out = append(out, LedgerProblem{Cat: "balance", Clause: "balance-moves-only-as-predicted", Disc: accName(k),
+				Detail: fmt.Sprintf("%s predicted to move by %s but has no balance record", accName(k), L.ExpBal[k])})
 		}
 	}
 	gs := new(big.Int).Sub(post.Supply, pre.Supply)
